@@ -77,10 +77,17 @@ def check(sid, prop, tier="quick", seed="1", repo=None):
     t0 = time.time()
     rdir = os.path.join(VERIF, "replays")
     before = set(os.listdir(rdir)) if os.path.isdir(rdir) else set()
+    # the evidence file of the property describes the unchanged tree: keep it across the run on the changed one
+    ev = os.path.join(VERIF, "evidence", prop + ".json")
+    ev_saved = open(ev).read() if os.path.exists(ev) else None
     try:
         rc, o = sh([os.path.join(VERIF, "check"), prop, "--tier", tier], cwd=VERIF, env={"VERIF_SEED": seed, "VERIF_TIER": tier, "VERIF_REPO": repo}, timeout=6 * 3600)
     finally:
         sh("git checkout -- .", cwd=repo)
+        if os.path.exists(ev):
+            shutil.copy(ev, os.path.join(dst, "evidence-of-the-run-on-the-changed-tree.json"))
+        if ev_saved is not None:
+            open(ev, "w").write(ev_saved)
         if repo != REPO:
             # point the rendered engine manifests back at /repo
             sh([sys.executable, "-c", "import sys; sys.path.insert(0, 'lib'); import vlib; vlib.render_engine()"], cwd=VERIF)
